@@ -20,10 +20,15 @@ class Boom(Exception):
     """the exception raised by the user's function at the chosen evaluation"""
 
 
+class Abort(BaseException):
+    """a failure that is not an Exception (KeyboardInterrupt, SystemExit, a user's abort signal): restoration is owed just the same"""
+
+
 class Ticker(object):
     def __init__(self):
         self.count = 0
         self.crash_at = None
+        self.crash_exc = Boom
         self.on_eval = None       # callable(count) -> None
         self.enabled = True
 
@@ -34,7 +39,7 @@ class Ticker(object):
         if self.on_eval is not None:
             self.on_eval(self.count)
         if self.crash_at is not None and self.count == self.crash_at:
-            raise Boom("user function raises at evaluation %d" % self.count)
+            raise self.crash_exc("user function raises at evaluation %d" % self.count)
 
 
 # ----------------------------------------------------------------------------- the mathematics (explicit tensors)
